@@ -438,7 +438,7 @@ Section Literal.
     match n with O => e | S k => EUn Negate (negs k e) end.
 
   Definition ident_char (c : ascii) : bool := is_alpha c || is_digit c || Ascii.eqb c "_".
-  Definition parse_numexpr (src : string) : presult :=
+  Definition parse_numexpr_flat (src : string) : presult :=
     let '(k, t) := count_neg src in
     match t with
     | EmptyString => match k with O => PUnmodelled | _ => PReject end
@@ -461,6 +461,30 @@ Section Literal.
               else PUnmodelled
           end
         else PUnmodelled
+    end.
+
+  (* nested_expression = _{ "(" ~ (WHITESPACE | NEWLINE)* ~ expression ~ (WHITESPACE | NEWLINE)* ~ ")" } is a
+     silent rule: `-*( <numeric expression> )` parses to the inner tree under the outer negations.
+     One level, no blanks inside — what serializable_value_to_source emits for negative numbers. *)
+  Fixpoint split_last (s : string) : option (string * ascii) :=
+    match s with
+    | EmptyString => None
+    | String c EmptyString => Some (EmptyString, c)
+    | String c r => match split_last r with Some (i, l) => Some (String c i, l) | None => None end
+    end.
+  Definition parse_numexpr (src : string) : presult :=
+    let '(k, t) := count_neg src in
+    match t with
+    | String "(" r =>
+        match split_last r with
+        | Some (inner, ")"%char) =>
+            match parse_numexpr_flat inner with
+            | PExpr e => PExpr (negs k e)
+            | other => other
+            end
+        | _ => PUnmodelled
+        end
+    | _ => parse_numexpr_flat src
     end.
 
   (* evaluate_ast on that slice: Number, UnaryOp Negate *)
@@ -493,6 +517,15 @@ Section Printing.
        if n.fract() == 0.0 && n.abs() < 1e15 { format!("{:.0}", n) } else { n.to_string() } *)
   Definition print_num (x : num) : string :=
     if nfract_is_zero x && nltb (nabs x) c1e15 then fmt_prec0 x else display x.
+
+  (* ast_to_source.rs serializable_value_to_source (captured values inlined into an emitted function,
+     after fix b235c37): NaN is (0/0); a value with the sign bit set is parenthesised, so that a
+     following postfix or power operator cannot bind to the digits first *)
+  Definition emit_num (x : num) : string :=
+    let text := print_num x in
+    if is_nan x then "(0/0)"%string
+    else if nsign x then ("(" ++ text ++ ")")%string
+    else text.
 
   (* formatter.rs: format_expr on a Number node falls through to expr_to_source, any width *)
   Definition format_num (x : num) (width : option Z) : string := print_num x.
@@ -674,12 +707,13 @@ Definition c16_case (xb : Z) (D P J S F E : string) : string :=
   let dkr := match x with S754_finite _ m e => shortest_digits_gen true m e | _ => ([], 0) end in
   ("S=" ++ show_b (String.eqb mS S)
    ++ " F=" ++ show_b (String.eqb (format_num fp dp x None) F)
-   ++ " E=" ++ show_b (String.eqb mS E)
+   ++ " E=" ++ show_b (String.eqb (emit_num fp dp x) E)
    ++ " JO=" ++ show_b (String.eqb jt J)
    ++ " RD=" ++ show_b (String.eqb (display_of_digits x dk) D)
    ++ " RZ=" ++ (if integral then show_b (String.eqb (ref_prec0 x) P) else "-")
    ++ " RJ=" ++ show_b (String.eqb (json_out (fun y => ryu_of_digits y dkr) x) J)
    ++ " SR=" ++ show_onum (read_source ref_str_parse mS)
+   ++ " ER=" ++ show_onum (read_source ref_str_parse (emit_num fp dp x))
    ++ " DN=" ++ show_onum (to_number_str ref_str_parse (to_string_num dp x))
    ++ " JL=" ++ show_onum (json_in false jt)
    ++ " JE=" ++ show_onum (json_in true jt))%string.
